@@ -26,7 +26,7 @@ func nsMutationPaths(bc *backendCall) (class string, idx []int) {
 		return "ns-create", []int{0}
 	case "OpenFile":
 		fl, ok := openFlagConst(bc.Instr)
-		if ok && fl&0x40 != 0 {
+		if ok && fl&oCREATE != 0 {
 			return "ns-create", []int{0}
 		}
 		if !ok {
@@ -84,7 +84,7 @@ func (p *Prog) enumerateMutations(reach map[*ssa.Function]bool) []mutation {
 				continue
 			}
 			if bc.Method == "OpenFile" {
-				if fl, ok := openFlagConst(call); ok && fl&0x200 != 0 { // O_TRUNC
+				if fl, ok := openFlagConst(call); ok && fl&oTRUNC != 0 { // O_TRUNC
 					out = append(out, mutation{Fn: fn, Call: call, Class: "data", Desc: "FS.OpenFile(O_TRUNC)", Paths: []*pexpr{mkExpr(args[0])}})
 				}
 			}
